@@ -8,6 +8,8 @@ from checks import c01
 
 
 def run(chk, replay):
+    if replay and replay["scenario"].get("real_pool"):
+        return real_pool_phase(chk)
     if replay:
         mode = "iter" if replay["scenario"]["sc"]["bsel"]["k"] == "iter" else "read"
         return c01.run_mode(chk, replay, mode)
@@ -17,3 +19,74 @@ def run(chk, replay):
     # code -> spec: level iteration and iter() recorded on large generated plotfiles and the assets (Reader!IterSpec in OpTrace.tla)
     from harness import optrace
     optrace.phase(chk, ["iter", "iter", "read"], "level iteration on large inputs", 60, 600, assets=["example_plt_3d", "example_plt_2d"], nops=6)
+    real_pool_phase(chk)
+
+
+def real_pool_phase(chk):
+    """`.iter(selection)` and level iteration with the genuine multiprocessing pool, in a child process that can be
+    abandoned: every selection -- the EMPTY ones included -- must yield exactly the selected boxes in the requested order
+    and then stop.  Expected values are what the in-parent independent parser (alpha) reads from the same directory."""
+    import json
+    import os
+    import random
+    import subprocess
+    import sys
+    import hashlib
+    import numpy as np
+    from checks.c02 import rand_layout
+    from harness import alpha, core, gamma
+    from harness import tlc
+    # PoolLife.tla: the life time of a pool whose only referent is the imap iterator.  With the pool kept referenced by the
+    # consumer (KeepRef = TRUE, the repaired code) no schedule wedges the task-handler thread and the caller always finishes;
+    # the schedules of the KeepRef = FALSE instances are the ones imposed on the real pool below.
+    for n in ((0, 1, 2) if chk.tier == "quick" else (0, 1, 2, 3, 4)):
+        r = chk.add_tlc(tlc.run("PoolLife", {"SPECIFICATION": "Spec", "CONSTANTS": {"N": n, "KeepRef": "TRUE"}, "INVARIANTS": ["NoWedge"],
+                                             "PROPERTIES": ["CallerFinishes"]}, workers=2, timeout=300), "PoolLife N=%d, pool kept referenced" % n)
+        if r.violated:
+            chk.note_drift("TLC: %s violated in PoolLife.tla (N=%d)" % (r.violated, n))
+    rng = random.Random(chk.seed + 77)
+    nruns = 2 if chk.tier == "quick" else 8
+    for run in range(nruns):
+        classes = [[rng.randint(1, 3) for _ in range(rng.randint(1, 5))]]
+        ndims = 3 if run % 2 == 0 else 2
+        cfg_ = gamma.Config.draw(rng, ndims=ndims, payload="wild")
+        ap = gamma.make_ap("A", ["a", "b"], classes, [rand_layout(rng, len(classes[0]))], ndims=ndims, time=cfg_.time)
+        d = os.path.join(chk.tmp(), "plt")
+        os.makedirs(os.path.dirname(d))
+        reg = gamma.write_plotfile(d, ap, cfg_)
+        n = len(classes[0])
+        want1 = [hashlib.sha1(np.ascontiguousarray(reg.array_of(("A", 0, b, 1)).reshape(gamma.box_shape(ap["levels"][0]["boxes"][b - 1]), order="F")).tobytes()).hexdigest()[:12]
+                 for b in range(1, n + 1)]
+        expect = {"slice-empty": [], "slice-empty-past-end": [], "slice-all": want1, "slice-step": want1[::2], "list-empty": [],
+                  "list": want1[::-1], "mask-none": [], "mask-all": want1, "mask-first": want1[:1], "level-iteration": None}
+        budget = 20
+        out = ""
+        for mode in ([], ["slow-handler"]):
+            try:
+                p = subprocess.run([sys.executable, os.path.join(os.path.dirname(os.path.abspath(__file__)), "c15_real.py"), core.REPO, d, "0", str(budget)] + mode,
+                                   stdout=subprocess.PIPE, stderr=subprocess.PIPE, text=True, timeout=budget * 12 + 60)
+                out += p.stdout
+            except subprocess.TimeoutExpired as e:
+                out += e.stdout.decode() if isinstance(e.stdout, bytes) else (e.stdout or "")
+        recs = [json.loads(ln) for ln in out.split("\n") if ln.startswith("{")]
+        if not recs:
+            raise core.MachineryError("the real-pool child produced no record: %s" % (p.stderr[-600:] if "p" in dir() else "timeout"))
+        for rec in recs:
+            sig = "real-pool%s/%s/boxes%d/%dd" % ("-slow-task-handler" if rec.get("slow") else "", rec["sel"], n, ndims)
+            chk.executed(sig)
+            chk.traces += 1
+            exp = expect[rec["sel"]]
+            v = None
+            if rec.get("hang"):
+                v = "%s on a level of %d boxes does not stop with the real process pool%s (no result within %d s)" % (
+                    "level iteration" if rec["sel"] == "level-iteration" else "pck[0][0].iter(%s)" % rec["sel"], n,
+                    " when the pool's task-handler thread is slower than its workers" if rec.get("slow") else "", budget)
+            elif "exc" in rec:
+                v = "%s raised %s" % (rec["sel"], rec["exc"])
+            elif exp is None:
+                if sorted(rec["yielded"]) != sorted(want1):
+                    v = "level iteration yielded %d boxes, the level has %d (as a multiset of contents)" % (len(rec["yielded"]), n)
+            elif rec["yielded"] != exp:
+                v = "iter(%s) yielded %r, the selected boxes in the requested order are %r" % (rec["sel"], rec["yielded"], exp)
+            if v:
+                chk.violation(sig, v, {"real_pool": True, "sel": rec["sel"]}, klass="real-pool%s/%s" % ("-slow" if rec.get("slow") else "", rec["sel"]))
